@@ -218,7 +218,9 @@ func (c *Case) Expect() Expectation {
 	either := false
 	if len(c.CAddr) > 0 {
 		if c.ClientAddr == "" {
-			either = true // ticket carries addresses but the service configured none to compare: not decided by the statement
+			// the ticket is restricted to addresses but the service knows no peer address to compare (none configured,
+			// or an unparsable RemoteAddr): the restriction cannot be met (RFC 4120 3.2.3: KRB_AP_ERR_BADADDR)
+			return rej("address-mismatch")
 		} else {
 			found := false
 			for _, a := range c.CAddr {
@@ -299,7 +301,16 @@ func uniqueMicro(t time.Time) time.Time {
 }
 
 // Addresses used in tickets and settings.
-var addrBytes = map[string][]byte{"A": {10, 1, 1, 1}, "B": {10, 2, 2, 2}, "C": {10, 3, 3, 3}}
+var addrBytes = map[string][]byte{"A": {10, 1, 1, 1}, "B": {10, 2, 2, 2}, "C": {10, 3, 3, 3},
+	"V6": {0x20, 0x01, 0x0d, 0xb8, 0, 0, 0, 0, 0, 0, 0, 0, 0x0a, 0x01, 0x01, 0x01}} // V6 embeds A's four octets: another address family
+
+// AddrType is the Kerberos address type of a named address.
+func AddrType(n string) int32 {
+	if n == "V6" {
+		return 24
+	}
+	return 2
+}
 
 // AddrBytes returns the IPv4 bytes of a named address.
 func AddrBytes(n string) []byte { return addrBytes[n] }
@@ -378,7 +389,7 @@ func (c *Case) Mint(samplePAC []byte) (*Minted, error) {
 	if c.CAddr != nil {
 		t.CAddr = []mint.Addr{}
 		for _, a := range c.CAddr {
-			t.CAddr = append(t.CAddr, mint.Addr{Type: 2, Data: addrBytes[a]})
+			t.CAddr = append(t.CAddr, mint.Addr{Type: AddrType(a), Data: addrBytes[a]})
 		}
 	}
 	if c.PAC != "" {
@@ -399,7 +410,7 @@ func (c *Case) Mint(samplePAC []byte) (*Minted, error) {
 		forged := der.M{"flags": mint.Flags32(0), "key": der.M{"keytype": int64(c.TktEType), "keyvalue": c.K("forged", c.TktEType)}, "crealm": "FORGED.ORG",
 			"cname": mint.PN(1, "forged"), "transited": der.M{"tr-type": int64(0), "contents": []byte{}}, "authtime": at(-1000).Truncate(time.Second),
 			"starttime": at(-100000).Truncate(time.Second), "endtime": at(999999000).Truncate(time.Second), "renew-till": at(999999000).Truncate(time.Second),
-			"caddr": []any{der.M{"addr-type": int64(2), "address": addrBytes[fa]}}}
+			"caddr": []any{der.M{"addr-type": int64(AddrType(fa)), "address": addrBytes[fa]}}}
 		inner, _ := der.Parse(der.EncTicketPart.MustEncode(forged))
 		seq, _ := inner.Explicit()
 		t.Trailing = seq.Raw
@@ -537,6 +548,8 @@ var Defects = map[string]func(c *Case){
 	"caddr-A":            func(c *Case) { c.CAddr = []string{"A"} },
 	"caddr-B":            func(c *Case) { c.CAddr = []string{"B"} },
 	"caddr-AB":           func(c *Case) { c.CAddr = []string{"A", "B"} },
+	"caddr-V6":           func(c *Case) { c.CAddr = []string{"V6"} },
+	"caddr-A-V6":         func(c *Case) { c.CAddr = []string{"A", "V6"} },
 	"caddr-none":         func(c *Case) { c.CAddr = nil },
 	"flag-invalid":       func(c *Case) { c.Flags |= mint.Flag(7) },
 	"pac-good":           func(c *Case) { c.PAC = "good" },
